@@ -57,7 +57,14 @@ pub fn gen_world(rng: &mut Rng, tag: &str, o: &WorldOpts) -> Result<World, Strin
     let n = rng.range(2, 6);
     let matrix = Matrix::random(rng, n, n, o.extreme);
     let lsize = rng.range(8, o.lex_size.max(9));
-    let lex = gen_lexicon(rng, n, lsize, o.extreme, o.splits);
+    let mut lex = gen_lexicon(rng, n, lsize, o.extreme, o.splits);
+    // every world knows a few numerals (part of speech 名詞,数詞), as every real dictionary does: the texts contain
+    // "12,345", "3.14", "一二三", "二千十", which JoinNumericPlugin joins only when the first token has that part of speech
+    for (k, s) in ["1", "2", "3", "4", "5", "一", "二", "三", "十", "千"].iter().enumerate() {
+        if !lex.rows.iter().any(|r| r.surface == *s) {
+            lex.rows.push(Row::simple(s, (k % n) as i32, ((k + 1) % n) as i32, 700 + 37 * k as i32, NUMERAL));
+        }
+    }
     let csv = csv_of(&lex.rows, &lex.pos);
     let system = build_system(csv.as_bytes(), matrix.text().as_bytes())?;
     let mut desc = vec![];
